@@ -70,6 +70,7 @@ func runWsAsync(c *Case) []string {
 	defer s.CloseNextLayer()
 
 	var events []string
+	chain := map[string][2]string{} // write id -> (next write id, length): what the callback of a write starts
 	var got []byte // bytes the server received
 	tail := func() string {
 		e := strings.Join(events, " ")
@@ -92,15 +93,24 @@ func runWsAsync(c *Case) []string {
 				}
 			})
 			return tail()
+		case "chain":
+			chain[a[0]] = [2]string{a[1], a[2]}
+			return tail()
 		case "write":
-			id, n := a[0], atoi(a[1])
-			p := make([]byte, n)
-			for i := range p {
-				p[i] = rwOutByte(atoi(a[0]), i)
+			var start func(id string, n int)
+			start = func(id string, n int) {
+				p := make([]byte, n)
+				for i := range p {
+					p[i] = rwOutByte(atoi(id), i)
+				}
+				s.AsyncWrite(p, websocket.TypeBinary, func(err error) {
+					events = append(events, fmt.Sprintf("cb=%s:%d:-", id, loopErrClass(err)))
+					if nx, ok := chain[id]; ok {
+						start(nx[0], atoi(nx[1]))
+					}
+				})
 			}
-			s.AsyncWrite(p, websocket.TypeBinary, func(err error) {
-				events = append(events, fmt.Sprintf("cb=%s:%d:-", id, loopErrClass(err)))
-			})
+			start(a[0], atoi(a[1]))
 			return tail()
 		case "peer":
 			opc, p := atoi(a[0]), unhex(a[1])
